@@ -65,7 +65,7 @@ _MODE_VS = {}
 def _case_of(fn, b):
     """the mode under which block b executes: the single possible value of the task's m_mode there (value-set analysis, so a switch,
     an if / else-if chain or early returns over the mode are read alike); None when several modes are possible"""
-    key = id(fn)
+    key = fn        # (the Fn object itself: an id() can be reused by a later program once this one is collected)
     if key not in _MODE_VS:
         cls = fn.cls
         en = None
